@@ -45,7 +45,7 @@ def check(ctx, replay=None):
         pm.replay_case(ctx, res, replay)
     else:
         cfgs = pm.grid_vine(ctx.rng, ctx.tier)
-        pm.run_cases(ctx, res, cfgs, scripts_for_factory(ctx, 50 if ctx.tier == "quick" else 300, 40 if ctx.tier == "quick" else 60), per_case=True)
+        pm.run_cases(ctx, res, cfgs, scripts_for_factory(ctx, 90 if ctx.tier == "quick" else 400, 45 if ctx.tier == "quick" else 70), per_case=True)
         res.extra["instantiations"] = [c.tag for c in cfgs]
     res.rule = ("one case = (Matrix option set with vine updates, filtered cell complex of <= 14 cells, random walk of vine_swap / "
                 "vine_swap_with_z_eq_1_case / remove_maximal_cell / remove_last / re-insertion, full dump and validation after every step); "
